@@ -1573,6 +1573,17 @@ class DynamicBase(BaseSpaceImpl):
             root = dynsub.rootspace
             root.parent.clear_itemspace_at(root.argvalues_if)
 
+    def set_formula(self, formula):
+        # The dynamic sub spaces have copied the formula
+        if getattr(self, "_dynamic_subs", None):
+            self.clear_subs_rootitems()
+        ItemSpaceParent.set_formula(self, formula)
+
+    def del_formula(self):
+        if getattr(self, "_dynamic_subs", None):
+            self.clear_subs_rootitems()
+        ItemSpaceParent.del_formula(self)
+
 
 _user_space_impl_base = (
     DynamicBase,
